@@ -1022,6 +1022,9 @@ class TransactionEvaluator:
 
         for op, comparator in zip(node.ops, node.comparators):
             right = self.evaluate(comparator)
+            # The next link of a chain compares against this comparator's own value,
+            # not against its date-coerced form (a < b < c means a < b and b < c)
+            next_left = right
 
             # Handle date comparisons: date >= "2025-01-01"
             if isinstance(left, date_type) and isinstance(right, str):
@@ -1063,7 +1066,7 @@ class TransactionEvaluator:
 
             if not result:
                 return False
-            left = right
+            left = next_left
 
         return True
 
